@@ -169,6 +169,11 @@ def shrink(case):
             yield t[6]
         elif t[0] == "unb":
             yield t[4]
+        elif t[0] == "unc":
+            yield t[2]
+            if len(t[1]) > 1:
+                for j in range(len(t[1])):
+                    yield ["unc", t[1][:j] + t[1][j + 1 :], t[2]]
 
     for s in subtrees(t):
         yield dict(case, tree=s)
